@@ -3,6 +3,7 @@ package main
 import (
 	"go/constant"
 	"go/token"
+	"go/types"
 	"strings"
 
 	"golang.org/x/tools/go/ssa"
@@ -59,6 +60,72 @@ func evalBoolHelper(c *ssa.Call, eval CondFn, hdepth int) (bool, bool) {
 	return first, have
 }
 
+// evalErrHelper: is the error value (the result of a call of a module helper) nil under the assumption? The helper is
+// explored with its parameters bound to the call's arguments; decided when every live return agrees.
+func evalErrHelper(ev ssa.Value, eval CondFn, hdepth int) (isNil bool, known bool) {
+	if hdepth >= 2 {
+		return false, false
+	}
+	var c *ssa.Call
+	switch y := ev.(type) {
+	case *ssa.Call:
+		c = y
+	case *ssa.Extract:
+		c, _ = y.Tuple.(*ssa.Call)
+		if c != nil {
+			if tup, ok := c.Type().(*types.Tuple); !ok || y.Index != tup.Len()-1 {
+				return false, false
+			}
+		}
+	}
+	if c == nil || c.Common().IsInvoke() {
+		return false, false
+	}
+	fn := c.Common().StaticCallee()
+	if fn == nil || len(fn.Blocks) == 0 || fn.Pkg == nil || fn.Pkg.Pkg == nil || !strings.HasPrefix(fn.Pkg.Pkg.Path(), modPath) {
+		return false, false
+	}
+	bind := bindParams(fn, c)
+	lifted := func(base ssa.Value) (bool, bool) { return eval(translateValue(base, bind, 0)) }
+	live := reachUnderD(fn, lifted, hdepth+1)
+	nNil, nErr := 0, 0
+	for _, ret := range Returns(fn) {
+		if !live.Blocks[ret.Block()] {
+			continue
+		}
+		rv := retVals(ret)
+		if len(rv) == 0 {
+			return false, false
+		}
+		for _, v := range live.LiveValues(rv[len(rv)-1]) {
+			switch {
+			case isNilConst(v):
+				nNil++
+			case nonNilAt(v, ret.Block(), 0):
+				nErr++
+			default:
+				// the error of a helper one level further down
+				in, k := evalErrHelper(v, lifted, hdepth+1)
+				if !k {
+					return false, false
+				}
+				if in {
+					nNil++
+				} else {
+					nErr++
+				}
+			}
+		}
+	}
+	if nNil > 0 && nErr == 0 {
+		return true, true
+	}
+	if nErr > 0 && nNil == 0 {
+		return false, true
+	}
+	return false, false
+}
+
 func reachUnderD(fn *ssa.Function, eval CondFn, hdepth int) *Live {
 	l := &Live{Blocks: map[*ssa.BasicBlock]bool{}, Edges: map[Edge]bool{}}
 	if len(fn.Blocks) == 0 {
@@ -87,6 +154,20 @@ func reachUnderD(fn *ssa.Function, eval CondFn, hdepth int) *Live {
 			}
 		case *ssa.Call:
 			return evalBoolHelper(x, eval, hdepth)
+		case *ssa.BinOp:
+			// `err != nil` where err is the error of a module helper: decided when, under the assumption translated into
+			// the helper, every live return of the helper is a failure (or every one is nil)
+			if (x.Op == token.EQL || x.Op == token.NEQ) && (isNilConst(x.X) || isNilConst(x.Y)) {
+				ev := x.X
+				if isNilConst(x.X) {
+					ev = x.Y
+				}
+				if isErrorType(ev.Type()) {
+					if isNil, known := evalErrHelper(ev, eval, hdepth); known {
+						return isNil == (x.Op == token.EQL), true
+					}
+				}
+			}
 		case *ssa.Phi:
 			first, have := false, false
 			for i, e := range x.Edges {
